@@ -159,7 +159,38 @@ def _has_vsep_problem(items, path_has=False):
     return False
 
 
-def crawl(cfg, form, full, ctx=None, max_requests=400):
+class _RacePickle:
+    """stands in for the pickle module as the directory handler sees it: before an object is dumped (i.e. when the cache
+    file is about to be written) the hook runs"""
+
+    def __init__(self, hook):
+        import pickle
+        self._p, self._hook, self._busy = pickle, hook, False
+
+    def __getattr__(self, name):
+        return getattr(self._p, name)
+
+    def dump(self, *a, **kw):
+        if not self._busy:
+            self._busy = True
+            try:
+                self._hook()
+            finally:
+                self._busy = False
+        return self._p.dump(*a, **kw)
+
+
+def _serve_with_racer(cfg, req, tls, full, raced):
+    import pygopherd.handlers.dir as hdir
+    saved = hdir.pickle
+    hdir.pickle = _RacePickle(lambda: raced.append(drive.serve(cfg, req, tls=tls, realfd=full)))
+    try:
+        return drive.serve(cfg, req, tls=tls, realfd=full)
+    finally:
+        hdir.pickle = saved
+
+
+def crawl(cfg, form, full, ctx=None, max_requests=400, race=False):
     """BFS from '/'. Returns (reached: dict sel->kind, fails: list[Fail], followed: int)."""
     tls, fam = clients.FORMS[form]
     gform = "gophers" if False else "gopher"
@@ -171,7 +202,13 @@ def crawl(cfg, form, full, ctx=None, max_requests=400):
     while queue and nreq < max_requests:
         sel, via = queue.pop(0)
         req = clients.encode(form, sel) if via is None else clients.follow(form, via)
-        r = drive.serve(cfg, req, tls=tls, realfd=full)
+        raced = []
+        if race:
+            # harness-owned schedule: while this request is writing the directory's cache file, a second client asks for the
+            # same listing; what that client is shown is advertised just as well
+            r = _serve_with_racer(cfg, req, tls, full, raced)
+        else:
+            r = drive.serve(cfg, req, tls=tls, realfd=full)
         nreq += 1
         pr = clients.parse_response(form, r.response, expect_menu=True)
         if r.escaped is not None or not pr.ok or pr.problems:
@@ -183,6 +220,16 @@ def crawl(cfg, form, full, ctx=None, max_requests=400):
             continue
         reached[sel] = "menu"
         entries = clients.parse_listing(form, pr)
+        for r_ in raced:
+            p_ = clients.parse_response(form, r_.response, expect_menu=True)
+            if r_.escaped is not None or not p_.ok or p_.problems:
+                fails.append(Fail("dead-menu:%s:concurrent" % fam, "%s: a second request for %r, arriving while the first writes the cache file, "
+                                  "is not served: %r" % (form, sel, (p_.errmsg or r_.response[:100])), {"logs": r_.logs[-2:]}))
+                continue
+            if ctx is not None:
+                ctx.count("concurrent_listings")
+            mine = {(e["target"][1] if e["target"] else None) for e in entries}
+            entries = entries + [e for e in clients.parse_listing(form, p_) if (e["target"][1] if e["target"] else None) not in mine]
         # types come from the plain-Gopher view of the same directory
         rg = drive.serve(cfg, clients.encode("gopher", sel), realfd=full)
         types = {}
@@ -360,7 +407,7 @@ def check_case(case, ctx):
                   "vsep-flavour" if case["vsep"] else "plain-flavour")
         for form in forms:
             fam = clients.FORMS[form][1]
-            reached, ff, nreq = crawl(cfg, form, full, ctx)
+            reached, ff, nreq = crawl(cfg, form, full, ctx, race=bool(case["cache"]) and len(items) % 2 == 0)
             ctx.count("requests", nreq)
             hard = [s for s in reached if not gen.is_tame(world.u(s).replace("/", "")) or b"|" in s or b".zip/" in s]
             if hard:
